@@ -6,6 +6,8 @@ BASE_CMD = "cd /repo && /venv/bin/python -m pytest -ra -q -p no:cacheprovider --
 # pid -> (technique, level text, level_note, design_ref)
 CHECKS = {}
 NOT_YET = {}
+# properties whose check is finished and reviewed (others stay under not_applicable until then)
+ENABLED = ["C03", "C04", "C07", "C08", "C15", "C17"]
 
 def load():
     import importlib, pkgutil
@@ -13,7 +15,7 @@ def load():
     for m in pkgutil.iter_modules(P.__path__):
         mod = importlib.import_module(f"harness.props.{m.name}")
         meta = getattr(mod, "MANIFEST", None)
-        if meta:
+        if meta and m.name.upper() in ENABLED:
             CHECKS[m.name.upper()] = meta
 
 def main():
